@@ -1,8 +1,199 @@
 import Pose.Wire
-/-! Driver ops for C14. -/
-namespace PP.Driver
-open PP Wire
+import Pose.Model.Lqr
+/-!
+Driver ops for C14 (LQR / MPC).
 
-def opsC14 : List (String × Handler) := []
+The Cholesky solve of the code is a *contract parameter* of the model (`Lqr.Solver`).  The stand-in used here
+(`cholSolver`: Cholesky factorisation + two triangular solves over `BigF`) is re-checked on every stage:
+`Quu` must have a positive Cholesky diagonal and `Quu·K + Qux = 0`, `Quu·k + qu = 0` to 2⁻¹²⁰ relative;
+otherwise the reply is `err contract:…` (the harness turns that into exit 2, never a verdict).
+-/
+namespace PP.Driver
+open PP Wire Lqr
+
+abbrev F := BigF
+
+/-! ### stand-in solver -/
+
+def aget (a : Array F) (i : Nat) : F := a.getD i BigF.zero
+def aget2 (a : Array (Array F)) (i j : Nat) : F := aget (a.getD i #[]) j
+
+/-- lower Cholesky factor, `none` when a pivot is not positive -/
+def cholArr {n : Nat} (M : Mat F n n) : Option (Array (Array F)) := Id.run do
+  let mut L : Array (Array F) := Array.replicate n (Array.replicate n BigF.zero)
+  for hi : i in [0:n] do
+    for hj : j in [0:i+1] do
+      have hi' : i < n := hi.2.1
+      have hj' : j < n := Nat.lt_of_lt_of_le hj.2.1 (Nat.succ_le_of_lt hi')
+      let mut s := M[i][j]
+      for l in [0:j] do
+        s := BigF.sub s (BigF.mul (aget2 L i l) (aget2 L j l))
+      if i == j then
+        if s.m ≤ 0 then return none
+        L := L.set! i ((L.getD i #[]).set! j (BigF.sqrt s))
+      else
+        L := L.set! i ((L.getD i #[]).set! j (BigF.div s (aget2 L j j)))
+  return some L
+
+/-- solve `L Lᵀ x = b` -/
+def cholSolveArr (n : Nat) (L : Array (Array F)) (b : Array F) : Array F := Id.run do
+  let mut y : Array F := Array.replicate n BigF.zero
+  for i in [0:n] do
+    let mut s := aget b i
+    for l in [0:i] do
+      s := BigF.sub s (BigF.mul (aget2 L i l) (aget y l))
+    y := y.set! i (BigF.div s (aget2 L i i))
+  let mut x : Array F := Array.replicate n BigF.zero
+  for i' in [0:n] do
+    let i := n - 1 - i'
+    let mut s := aget y i
+    for l in [i+1:n] do
+      s := BigF.sub s (BigF.mul (aget2 L l i) (aget x l))
+    x := x.set! i (BigF.div s (aget2 L i i))
+  return x
+
+def cholSolver (ns nc : Nat) : Solver F ns nc where
+  solveV := fun M y =>
+    match cholArr M with
+    | none => vzero
+    | some L => let x := cholSolveArr nc L y.toArray; vec fun i => aget x i.val
+  solveM := fun M Y =>
+    match cholArr M with
+    | none => mzero
+    | some L =>
+      let cols : Array (Array F) := Array.ofFn fun (j : Fin ns) => cholSolveArr nc L (Array.ofFn fun (i : Fin nc) => Y[i][j])
+      mat fun i j => aget (cols.getD j.val #[]) i.val
+
+def maxAbs (xs : List F) : F := xs.foldl (fun a x => if BigF.lt a (BigF.abs x) then BigF.abs x else a) BigF.zero
+
+def flatV {n : Nat} (v : Vec F n) : List F := v.toList
+def flatM {m n : Nat} (M : Mat F m n) : List F := (M.toList.map fun r => r.toList).flatten
+
+/-- re-check of the solver contract on one stage -/
+def checkGain {ns nc : Nat} (g : Gain F ns nc) : Except String Unit := do
+  match cholArr g.Quu with
+  | none => throw "contract:not-pd"
+  | some _ => pure ()
+  let r1 := flatM (madd (mmul g.Quu g.K) g.Qux)
+  let r2 := flatV (vadd (mulVec g.Quu g.k) g.qu)
+  let tiny : F := ⟨1, -120⟩
+  let sc1 := BigF.add (maxAbs (flatM g.Qux)) (BigF.mul (BigF.ofNat (nc+1)) (BigF.mul (maxAbs (flatM g.Quu)) (maxAbs (flatM g.K))))
+  let sc2 := BigF.add (maxAbs (flatV g.qu)) (BigF.mul (BigF.ofNat (nc+1)) (BigF.mul (maxAbs (flatM g.Quu)) (maxAbs (flatV g.k))))
+  if BigF.lt (BigF.mul tiny sc1) (maxAbs r1) then throw "contract:solveM-residual"
+  if BigF.lt (BigF.mul tiny sc2) (maxAbs r2) then throw "contract:solveV-residual"
+
+/-! ### reading tensors off the wire -/
+
+def vecAt (a : Array F) (off n : Nat) : Vec F n := vec fun i => aget a (off + i.val)
+def matAt (a : Array F) (off m n : Nat) : Mat F m n := mat fun i j => aget a (off + i.val * n + j.val)
+
+structure LinData (ns nc : Nat) where
+  x0 : Vec F ns
+  S : Sys F ns nc
+  P : Prob F ns nc
+  ubar : Option (List (Vec F nc))
+  used : Nat
+
+/-- layout: x0 | per system slot l<max(L,1): A B c | per t<T: Q p | (hasU) per t<T: ubar ; `L = 0`: time-invariant -/
+def readLinear (ns nc T L hasU : Nat) (a : Array F) (off0 : Nat) : LinData ns nc :=
+  let slots := if L == 0 then 1 else L
+  let szS := ns*ns + ns*nc + ns
+  let offS := off0 + ns
+  let idx := fun (t : Nat) => if L == 0 then 0 else t
+  -- a slot past the end reads zeros (the code would raise IndexError; a correct solve never gets there)
+  let A := fun t => matAt a (if idx t < slots then offS + idx t * szS else a.size) ns ns
+  let B := fun t => matAt a (if idx t < slots then offS + idx t * szS + ns*ns else a.size) ns nc
+  let c := fun t => vecAt a (if idx t < slots then offS + idx t * szS + ns*ns + ns*nc else a.size) ns
+  let n := ns + nc
+  let offQ := offS + slots * szS
+  let szQ := n*n + n
+  let Q := fun t => matAt a (offQ + t * szQ) n n
+  let p := fun t => vecAt a (offQ + t * szQ + n*n) n
+  let offU := offQ + T * szQ
+  let ub : Option (List (Vec F nc)) :=
+    if hasU == 1 then some ((List.range T).map fun t => vecAt a (offU + t*nc) nc) else none
+  ⟨vecAt a off0 ns, Sys.linear A B c, ⟨T, Q, p⟩, ub, offU + (if hasU == 1 then T*nc else 0)⟩
+
+/-- layout: x0 | A B c a phi W R | per t<T: Q p | (hasU) per t<T: ubar -/
+def readSin (ns nc T hasU : Nat) (a : Array F) (off0 : Nat) : LinData ns nc :=
+  let o1 := off0 + ns
+  let oB := o1 + ns*ns
+  let oc := oB + ns*nc
+  let oa := oc + ns
+  let ophi := oa + ns
+  let oW := ophi + ns
+  let oR := oW + ns*ns
+  let n := ns + nc
+  let offQ := oR + ns*nc
+  let szQ := n*n + n
+  let Q := fun t => matAt a (offQ + t * szQ) n n
+  let p := fun t => vecAt a (offQ + t * szQ + n*n) n
+  let offU := offQ + T * szQ
+  let ub : Option (List (Vec F nc)) :=
+    if hasU == 1 then some ((List.range T).map fun t => vecAt a (offU + t*nc) nc) else none
+  ⟨vecAt a off0 ns, Sys.sinSys (matAt a o1 ns ns) (matAt a oB ns nc) (vecAt a oc ns) (vecAt a oa ns) (vecAt a ophi ns)
+      (matAt a oW ns ns) (matAt a oR ns nc), ⟨T, Q, p⟩, ub, offU + (if hasU == 1 then T*nc else 0)⟩
+
+def fmtOut {ns nc : Nat} (o : Out F ns nc) (withGains : Bool) : Except String (List F) := do
+  o.gains.forM checkGain
+  let base := (o.x.map flatV).flatten ++ (o.u.map flatV).flatten ++ [o.cost]
+  if withGains then
+    return base ++ (o.gains.map fun g => flatM g.K).flatten ++ (o.gains.map fun g => flatV g.k).flatten
+  else return base
+
+def opsC14 : List (String × Handler) := [
+  -- c14.lqr ns nc T dt L hasU nums…  → x (T+1)·ns | u T·nc | cost | K T·nc·ns | k T·nc
+  ("c14.lqr", fun ts => do
+      match ts with
+      | ns :: nc :: T :: dt :: L :: hasU :: rest =>
+        let ns ← nat ns; let nc ← nat nc; let T ← nat T; let dt ← nat dt; let L ← nat L; let hasU ← nat hasU
+        let a := (← nums rest).toArray
+        let d := readLinear ns nc T L hasU a 0
+        if d.used ≠ a.size then throw s!"arity:{a.size}≠{d.used}"
+        let o := lqr (cholSolver ns nc) d.S d.P dt d.x0 (nomOf d.ubar)
+        return fmt (← fmtOut o true)
+      | _ => throw "arity"),
+  -- c14.nls ns nc T hasU nums…  (sin system) → same reply
+  ("c14.nls", fun ts => do
+      match ts with
+      | ns :: nc :: T :: hasU :: rest =>
+        let ns ← nat ns; let nc ← nat nc; let T ← nat T; let hasU ← nat hasU
+        let a := (← nums rest).toArray
+        let d := readSin ns nc T hasU a 0
+        if d.used ≠ a.size then throw s!"arity:{a.size}≠{d.used}"
+        let o := lqr (cholSolver ns nc) d.S d.P 1 d.x0 (nomOf d.ubar)
+        return fmt (← fmtOut o true)
+      | _ => throw "arity"),
+  -- c14.mpc kind(0 linear,1 sin) ns nc T L hasU steps patience pc0 | decreasing tol | system nums…
+  --   → "<iterations> <patience_count after>" then x | u | cost   (MPC.__init__ does max_steps -= 1)
+  ("c14.mpc", fun ts => do
+      match ts with
+      | kind :: ns :: nc :: T :: L :: hasU :: steps :: pat :: pc0 :: rest =>
+        let kind ← nat kind; let ns ← nat ns; let nc ← nat nc; let T ← nat T; let L ← nat L; let hasU ← nat hasU
+        let steps ← int steps; let pat ← nat pat; let pc0 ← nat pc0
+        let a := (← nums rest).toArray
+        let d := if kind == 0 then readLinear ns nc T L hasU a 2 else readSin ns nc T hasU a 2
+        if d.used ≠ a.size then throw s!"arity:{a.size}≠{d.used}"
+        let st : Stepper F := ⟨steps - 1, pat, aget a 0, aget a 1, none, 0, pc0, true⟩
+        let fuel := (steps - 1).toNat + 2
+        let r := mpc (cholSolver ns nc) d.S d.P 1 d.x0 fuel st d.ubar
+        let body ← fmtOut r.1 false
+        return s!"{r.2.2} {r.2.1.patienceCount} " ++ fmt body
+      | _ => throw "arity"),
+  -- c14.stepper steps patience pc0 | decreasing tol loss…  → continual flags after each step (0/1), final patience_count
+  ("c14.stepper", fun ts => do
+      match ts with
+      | steps :: pat :: pc0 :: rest =>
+        let steps ← int steps; let pat ← nat pat; let pc0 ← nat pc0
+        let a ← nums rest
+        match a with
+        | dec :: tol :: losses =>
+          let st0 : Stepper F := (⟨steps, pat, dec, tol, none, 0, pc0, true⟩ : Stepper F).reset
+          let (st, flags) := losses.foldl (fun (acc : Stepper F × List Nat) l =>
+            let s := acc.1.step l; (s, acc.2 ++ [if s.continual then 1 else 0])) (st0, [])
+          return fmtNats (flags ++ [st.patienceCount])
+        | _ => throw "arity"
+      | _ => throw "arity")
+]
 
 end PP.Driver
